@@ -33,7 +33,7 @@ ASSUMPTIONS = [
     "flag clause: ||grad f(x_ret; p_requested)|| < tol*(1+1e-9)",
     "convex clause: cond <= 1e4, dim <= 30, |x0| <= 1e3, lambda_max <= 1e3, default settings => flag True and "
     "|x-x*| <= 2*tol/mu + 100*eps*cond*max(1,|x*|) (strong convexity with mu known by construction)",
-    "finiteness clause asserted only when the RecordingObjective saw no non-finite input/output in any call the solver made",
+    "finiteness clause asserted unless the RecordingObjective saw a call with FINITE input and non-finite output (objective not finite everywhere); non-finite points constructed by the solver itself excuse nothing",
     "path observer (sys.monitoring LINE + frame locals) is evidence only",
     "C06's sub-problem contracts (vlib.monitors_c06, record mode) run in situ when available; their counters/closest calls appear "
     "under c06_insitu/ as evidence, their verdict belongs to C06 (a c06_insitu/ ratio above 1, e.g. in the 'D20 class' of the "
@@ -49,7 +49,12 @@ REQUIRED = {
         "farflat_flag_true": 5, "incremental_mode_solves": 8, "entry_nes_warm": 8, "entry_nes_cold": 8, "entry_trm": 30,
         "precond_exact": 30, "precond_stale": 8, "precond_identity": 8, "ip_preconditioned": 20, "ip_euclidean": 30,
         "class:roundoff_floor": 20, "model_increase": 50, "model_and_objective_increase_at_acceptance_test": 50,
-        "cap_exit_after_rejected_last_trial": 3, "class:convex_default": 24, "class:far_flat": 12, "class:exits": 24, "class:barrier": 6, "class:incremental": 8,
+        "cap_exit_after_rejected_last_trial": 3, "class:settings_boundary": 100, "class:load_sequence": 40, "tol_squared_is_zero_solves": 60,
+        "exactly_stationary_iterate_while_unconverged": 30, "solves_with_nonfinite_trial_point": 30, "load_sequences": 40, "sequence_solves": 150,
+        "sequence_p_changes": 100, "p_change_with_objective_drop_at_start": 30, "cold_restart_from_returned_array": 50,
+        "cold_restart_after_converged_solve_with_objective_drop": 15, "sequence_p_change_design": 5, "interleaved_other_point": 5,
+        "interleaved_other_p_same_point": 5, "sequence_driver_hand": 20, "sequence_driver_nes_cold": 20, "sequence_driver_nes_warm": 10,
+        "class:convex_default": 24, "class:far_flat": 12, "class:exits": 24, "class:barrier": 6, "class:incremental": 8,
     },
     "quick": {},
     "thorough": {"solves": 12000, "trace_points_checked": 40000, "descent_pairs_checked": 40000, "flag_true_checked": 2000,
@@ -59,7 +64,7 @@ REQUIRED = {
                  "model_increase": 4000, "model_and_objective_increase_at_acceptance_test": 4000,
                  "cap_exit_after_rejected_last_trial": 80, "farflat_flag_true": 240, "incremental_mode_solves": 300},
 }
-WATCHDOG_S = {"quick": 1500, "thorough": 4 * 3600}
+WATCHDOG_S = {"quick": 3600, "thorough": 6 * 3600}
 MAX_VACUOUS_FRACTION = 0.25
 
 D1_KEY = "D1_convergence_test_on_trial_point_precedes_acceptance"
@@ -140,6 +145,29 @@ def build_cases(tier, seed):
     for i in range(40 * mult):
         add("roundoff_floor", i, family="rankdef", n=(5, 8, 13, 20)[i % 4], entry=("trm", "nes_cold")[i % 2], start="random",
             precond=("exact", "exact", "stale")[i % 3], ip=bool((i // 2) % 2), incremental=False, settings="roundoff", cost=3.0)
+    # boundary of the admissible settings + exactly stationary iterates (gradient identically 0 while not converged)
+    exact_variants = ("spd", "spd_single", "singular", "indefinite_saddle_start", "start_on_min", "spd_far")
+    modes = ("default", "ip", "incremental", "small_window", "huge_radius")
+    for i in range(60 * mult):
+        add("settings_boundary", i, kind="exact", variant=exact_variants[i % 6], mode=modes[(i // 6) % 5], n=(1, 2, 3, 5, 8)[(i // 2) % 5],
+            tol=(0.0, 0.0, 1e-200, 1e-170)[(i // 3) % 4], entry=("trm", "nes_cold")[i % 2], precond=("exact", "exact", "identity")[(i // 4) % 3],
+            family="quad", cost=0.6)
+    for i in range(40 * mult):
+        add("settings_boundary", 1000000 + i, kind="stationary", family=("wells", "quartic", "rankdef", "flat_exp", "flat_rat", "cos", "quad", "convex_nq")[i % 8],
+            n=_pick(rng, (1, 2, 3, 5, 8)), tol=(0.0, 1e-200, 0.0, 1e-170)[(i // 8) % 4], mode=modes[(i // 2) % 5],
+            entry=("trm", "nes_cold")[i % 2], precond=("exact", "identity")[(i // 3) % 2], cost=0.6)
+    extremes = ("tol_huge", "tr_huge", "tr_tiny", "etas_tiny", "etas_crowded", "t_extreme_fast", "t_extreme_slow", "tol_zero_generic")
+    for i in range(48 * mult):
+        add("settings_boundary", 2000000 + i, kind="extreme", extreme=extremes[i % 8], family=BROAD_FAMILIES[(i // 8) % len(BROAD_FAMILIES)],
+            n=max(2, _pick(rng, (2, 3, 5, 8, 13))), entry=_pick(rng, ("trm", "nes_cold", "nes_warm")), precond=_pick(rng, ("exact", "identity")),
+            mode=_pick(rng, ("default", "ip")), cost=1.0)
+    # load sequences: ONE Objective object serves 3-6 consecutive solves with changing parameters; every next solve starts from
+    # exactly the array the previous one returned
+    for i in range(60 * mult):
+        add("load_sequence", i, family=("valley", "valley", "quartic", "valley", "convex_nq", "rosen_as_valley")[i % 6].replace("rosen_as_valley", "valley"),
+            n=(2, 2, 3, 5, 2, 3)[(i // 6) % 6], driver=("nes_cold", "hand", "nes_cold", "hand", "mixed", "nes_warm")[i % 6],
+            interleave=("none", "none", "other_point", "none", "other_p_same_point", "none")[(i // 2) % 6],
+            settings=("default", "default", "mild")[(i // 3) % 3], cost=2.5)
     ngroups = 32 if tier == "quick" else 64
     for j, c in enumerate(cases):
         c["group"] = "g%d" % (j % ngroups)
@@ -283,8 +311,14 @@ def check_trace(res, fam, p_req, start, rec, x_ret, flag, tol, obj, log_start, i
     res.count("returned_is_last_checked")
 
     # (iv) finiteness
-    all_finite_evals = obj.all_evaluations_finite(log_start)
+    # hypothesis of the finiteness clause: "the objective is finite everywhere" -- refuted only by a call with a finite input
+    # and a non-finite output; NaN/inf points the SOLVER constructed and then evaluated do not excuse a non-finite iterate
+    all_finite_evals = obj.finite_on_finite_inputs(log_start)
     facts["all_evals_finite"] = all_finite_evals
+    nf_in = obj.nonfinite_inputs(log_start)
+    if nf_in:
+        res.count("solver_evaluated_objective_at_nonfinite_point", nf_in)
+        res.count("solves_with_nonfinite_trial_point")
     if all_finite_evals and assert_finite:
         bad = [i for i, x in enumerate(xs) if not onp.all(onp.isfinite(x))]
         res.expect("reported_iterates_finite", not bad and bool(onp.all(onp.isfinite(x_ret))),
@@ -339,6 +373,334 @@ def check_trace(res, fam, p_req, start, rec, x_ret, flag, tol, obj, log_start, i
     return facts
 
 
+def one_solve(res, obj, fam, p_req, x0, settings, entry, pk, x_stale, incremental, p_hand=None):
+    """Run ONE solve on `obj` (possibly an Objective with a history) and check clauses (i)-(iv) under p_req.
+
+    entry: 'trm' (trust_region_minimize called by the harness; p_hand, when given, is installed by hand first),
+           'nes_cold' / 'nes_warm' (nonlinear_equation_solve).  pk: exact / stale / identity / keep (leave the preconditioner).
+    x0 may be a jax array (passed through untouched, e.g. the array a previous solve returned) or a numpy array.
+    Returns (facts, x_ret, flag, start, exit_taken, recorder) or None when the execution was classified already."""
+    import jax.numpy as np
+    from optimism import EquationSolver as es
+    from vlib import monitors_c01 as M
+    from vlib.gen import c01_objectives as G
+    log0 = len(obj.log)
+    observer = get_observer()
+    c06 = _observer.get("c06")
+    if c06 is not None:
+        c06.LOG.reset()
+    rec = M.CallbackRecorder()
+    starts = []
+
+    def solver_algorithm(objective, x, s, callback=None):
+        starts.append((onp.array(x, dtype=float, copy=True), len(objective.log)))
+        if observer is not None:
+            observer.reset()
+        return es.trust_region_minimize(objective, x, s, callback=callback)
+
+    per_pass = 2 if incremental else 1
+    rigorous = per_pass * while_iteration_bound(settings) + 2
+    budget = min(rigorous, per_pass * PRACTICAL_WHILE_CAP)
+    calls0 = obj.gradient_calls
+    obj.gradient_budget = calls0 + budget
+    res.count("solves")
+    res.count("entry_" + entry)
+    res.count("precond_" + pk)
+    res.count("ip_preconditioned" if settings.use_preconditioned_inner_product_for_cg else "ip_euclidean")
+    res.count("family_" + fam)
+    if incremental:
+        res.count("incremental_mode_solves")
+    try:
+        if entry == "trm":
+            if p_hand is not None:
+                obj.p = p_hand          # hand-rolled driver: install the requested parameters, then call the minimiser
+            if pk != "keep":
+                obj.update_precond(np.asarray(x_stale if pk == "stale" else x0))
+            x_ret, flag = solver_algorithm(obj, x0 if hasattr(x0, "at") else np.asarray(x0), settings, callback=rec)
+        else:
+            update = pk not in ("stale", "keep")
+            if pk == "stale":
+                obj.update_precond(np.asarray(x_stale))
+            x_ret, flag = es.nonlinear_equation_solve(obj, x0 if hasattr(x0, "at") else np.asarray(x0), p_req, settings, solver_algorithm=solver_algorithm,
+                                                      callback=rec, useWarmStart=(entry == "nes_warm"), updatePrecond=update)
+    except M.LogicalBudgetExceeded as e:
+        res.count("logical_budget_exceeded")
+        if obj.gradient_calls - calls0 > rigorous:
+            res.violate("solver_terminates", {"gradient_calls": obj.gradient_calls - calls0, "rigorous_bound": rigorous, "n_reported": len(rec.xs),
+                                              "info": "more acceptance-loop passes than the settings admit: the solver does not return"})
+        else:
+            res.inconclusive("practical iteration cap of the harness hit (%s) below the rigorous bound %d" % (e, rigorous))
+        return None
+    except Exception as e:  # noqa
+        finite = obj.all_evaluations_finite(log0)
+        res.count("solver_raised")
+        if fam in G.FINITE_EVERYWHERE and finite and not isinstance(e, MemoryError):
+            res.violate("solver_returns", {"exception": type(e).__name__, "message": str(e)[:300], "n_reported": len(rec.xs)})
+        else:
+            res.vacuous("solver raised %s after a non-finite evaluation: %s" % (type(e).__name__, str(e)[:120]))
+        return None
+    flag = bool(flag)
+    if not starts:
+        res.violate("solver_algorithm_called", {"info": "nonlinear_equation_solve never called solver_algorithm"})
+        return None
+    start, log_start = starts[-1]
+    if not onp.all(onp.isfinite(start)):
+        res.vacuous("warm start produced a non-finite start point")
+        return None
+
+    if c06 is not None:
+        fold_c06(res, c06)
+    exit_taken = None
+    if observer is not None:
+        exit_taken = M.summarize(observer, res, (M.TRM_EXIT_NAMES, M.DOGLEG_NAMES, M.CG_NAMES))
+        acc = [vals for tag, vals in observer.events if tag == "accept_test"]
+        if exit_taken == "exit_iteration_cap" and acc and not acc[-1].get("willAccept"):
+            res.count("cap_exit_after_rejected_last_trial")
+        for tag, vals in observer.events:
+            if tag == "accept_test" and (vals.get("modelObjective") or 0.0) > 0:
+                res.count("model_increase_at_acceptance_test")
+                if (vals.get("realObjective") or 0.0) > 0:
+                    res.count("model_and_objective_increase_at_acceptance_test")
+    facts = check_trace(res, fam, p_req, start, rec, x_ret, flag, float(settings.tol), obj, log_start, incremental, assert_finite=True)
+    return facts, x_ret, flag, start, exit_taken, rec
+
+
+
+def _mode_kwargs(mode):
+    return {"default": {}, "ip": {"use_preconditioned_inner_product_for_cg": True}, "incremental": {"use_incremental_objective": True},
+            "small_window": {"tr_size": 0.5, "min_tr_size": 1e-3}, "huge_radius": {"tr_size": 1e6}}[mode]
+
+
+def _count_stationary(res, fam, p_req, start, rec, settings):
+    """Evidence: did the solver sit on an EXACTLY stationary point (own gradient identically 0) without being converged?"""
+    import jax.numpy as np
+    fj, gj = own_functions(fam)
+    if float(settings.tol) ** 2 > 0.0:
+        return
+    for x in [start] + list(rec.xs):
+        if onp.all(onp.isfinite(x)) and not onp.any(onp.asarray(gj(np.asarray(x), p_req))):
+            res.count("exactly_stationary_iterate_while_unconverged")
+            return
+
+
+def run_boundary_case(case, res):
+    """Boundary of the admissible settings (tol = 0 / below the underflow of tol**2 / huge, radii and thresholds at their
+    extremes) and exactly stationary iterates: exactly representable quadratics on which Newton lands bit-exactly on the
+    minimiser, starts on minimisers / saddles / maximisers / singular minimisers."""
+    import jax.numpy as np
+    from optimism import EquationSolver as es
+    from optimism import Objective as ObjMod
+    from vlib import monitors_c01 as M
+    from vlib.common import loguniform
+    from vlib.gen import c01_objectives as G
+
+    rng = rng_of(case["seed"])
+    kind, fam, n = case["kind"], case["family"], int(case["n"])
+    kw = {"debug_info": False}
+    incremental = False
+    if kind in ("exact", "stationary"):
+        kw.update(_mode_kwargs(case["mode"]))
+        kw.update(tol=float(case["tol"]), max_trust_iters=int(_pick(rng, (10, 30))))
+        incremental = bool(kw.get("use_incremental_objective", False))
+    if kind == "exact":
+        variant = case["variant"]
+        a = onp.array([_pick(rng, (0.25, 1.0, 4.0, 16.0)) for _ in range(n)])
+        if variant == "spd_single":
+            a[:] = a[0]
+        xs = rng.integers(-4, 5, n).astype(float)
+        off = rng.integers(-1, 2, n).astype(float)
+        if not off.any():
+            off[int(rng.integers(n))] = 1.0
+        if variant == "spd_far":
+            off = off * 8.0
+        if variant == "singular":
+            a[:] = a[0]
+            z = rng.random(n) < 0.5
+            if n > 1 and z.all():
+                z[0] = False
+            if n == 1:
+                z[:] = False
+            a = onp.where(z, 0.0, a)
+        if variant == "indefinite_saddle_start":
+            neg = rng.random(n) < 0.5
+            if not neg.any():
+                neg[int(rng.integers(n))] = True
+            a = onp.where(neg, -a, a)
+            off[:] = 0.0
+        if variant == "start_on_min":
+            off[:] = 0.0
+        A = onp.diag(a)
+        b = a * xs                      # exact: small integers times powers of four
+        x0 = xs + off
+        data = G.pack(A, b, [0.0])
+        res.count("exact_quadratic_" + variant)
+    elif kind == "stationary":
+        prob = G.gen_problem(fam, n if fam != "rosen" else max(n, 2), rng, {"start": "random", "cond": 10.0 ** rng.uniform(0, 3)})
+        A, b, c = prob["A"], prob["b"], prob["c"]
+        if fam in ("wells", "flat_exp", "flat_rat"):
+            x0 = onp.zeros(n)                                   # local maximiser of the wells / minimiser of the bumps: grad = 0 exactly
+        elif fam in ("quartic", "cos"):
+            b = onp.zeros(n)
+            x0 = onp.zeros(n)                                   # saddle (indefinite A, no linear term)
+        elif fam == "rankdef":
+            x0 = onp.array(b)                                   # minimiser with singular Hessian
+        else:
+            x0 = onp.array(prob["xstar"])                       # planted minimiser (gradient at rounding level, maybe exactly 0)
+        data = G.pack(A, b, c)
+        res.count("stationary_start_" + fam)
+    else:
+        ext = case["extreme"]
+        prob = G.gen_problem(fam, n, rng, {"start": "random", "cond": 10.0 ** rng.uniform(0, 4)})
+        data, x0 = prob["data"], onp.array(prob["x0"])
+        kw.update(_mode_kwargs(case["mode"]))
+        kw.update(max_trust_iters=20, tol=float(loguniform(rng, 1e-10, 1e-6)))
+        if ext == "tol_huge":
+            kw["tol"] = float(_pick(rng, (1e3, 1e10, 1e150)))
+        elif ext == "tr_huge":
+            kw.update(tr_size=float(_pick(rng, (1e8, 1e12))))
+        elif ext == "tr_tiny":
+            kw.update(tr_size=1e-8, min_tr_size=1e-12)
+        elif ext == "etas_tiny":
+            kw.update(eta1=1e-300, eta2=1e-200, eta3=1e-100)
+        elif ext == "etas_crowded":
+            kw.update(eta1=0.97, eta2=0.98, eta3=0.99)
+        elif ext == "t_extreme_fast":
+            kw.update(t1=0.01, t2=100.0)
+        elif ext == "t_extreme_slow":
+            tr = float(loguniform(rng, 1e-1, 1e1))
+            kw.update(t1=0.99, t2=1.0001, tr_size=tr, min_tr_size=0.05 * tr, max_trust_iters=10)
+        elif ext == "tol_zero_generic":
+            kw.update(tol=float(_pick(rng, (0.0, 1e-200))), max_trust_iters=int(_pick(rng, (10, 30))))
+        res.count("extreme_" + ext)
+    settings = es.get_settings(**kw)
+    if float(settings.tol) ** 2 == 0.0:
+        res.count("tol_squared_is_zero_solves")
+    p_req = ObjMod.Params(np.asarray(data))
+    entry, pk = case["entry"], case["precond"]
+    p_init = p_req
+    if entry != "trm":
+        Ai, bi, ci = G.unpack_np(data, n)
+        p_init = ObjMod.Params(np.asarray(G.pack(Ai, bi + 1.0, ci)))
+    Rec = M.recording_objective()
+    obj = Rec(G.family(fam), np.asarray(x0), p_init, M.identity_precond_strategy(n) if pk == "identity" else None)
+    out = one_solve(res, obj, fam, p_req, x0, settings, entry, pk, x0, incremental)
+    if out is None:
+        return res
+    facts, x_ret, flag, start, exit_taken, rec = out
+    _count_stationary(res, fam, p_req, start, rec, settings)
+    res.nontrivial = True
+    return res
+
+
+def run_sequence_case(case, res):
+    """One Objective object, 3-6 consecutive solves with changing parameters (load ramp in slot 0, design change in slot 2,
+    increases and decreases); every next solve starts from exactly the array the previous solve returned.  Each solve is
+    judged under the parameters requested for THAT solve, start point included in the descent chain."""
+    import jax.numpy as np
+    from optimism import EquationSolver as es
+    from optimism import Objective as ObjMod
+    from vlib import monitors_c01 as M
+    from vlib.common import loguniform
+    from vlib.gen import c01_objectives as G
+
+    rng = rng_of(case["seed"])
+    fam, n = case["family"], int(case["n"])
+    nsteps = int(rng.integers(3, 7))
+    if fam == "valley":
+        A = onp.zeros((n, n))
+        c = [float(loguniform(rng, 0.3, 1.0)), 1.0]
+        x0 = onp.full(n, 1.0) + rng.standard_normal(n) * 0.3
+        if rng.random() < 0.5:
+            x0[0] = -1.2
+        direction = onp.zeros(n)
+        direction[0] = 1.0
+        if rng.random() < 0.4:
+            direction = rng.standard_normal(n)
+            direction /= onp.linalg.norm(direction)
+        b = onp.zeros(n)
+        design = 1.0
+        step_scale = 1.0
+    else:
+        prob = G.gen_problem(fam, n, rng, {"start": "random", "cond": 10.0 ** rng.uniform(0, 3)})
+        A, b, c, x0 = prob["A"], onp.array(prob["b"]), prob["c"], onp.array(prob["x0"])
+        direction = rng.standard_normal(n)
+        direction /= onp.linalg.norm(direction)
+        design = None
+        step_scale = float(loguniform(rng, 0.3, 3.0))
+
+    def params(bv, dv):
+        d = np.asarray(G.pack(A, bv, c))
+        return ObjMod.Params(bc_data=d) if dv is None else ObjMod.Params(bc_data=d, design_data=np.asarray([dv]))
+
+    kw = {"debug_info": False}
+    if case["settings"] == "mild":
+        kw.update(tr_size=float(loguniform(rng, 0.5, 8.0)), max_trust_iters=int(_pick(rng, (50, 100, 200))), tol=float(loguniform(rng, 1e-9, 1e-6)),
+                  eta1=float(loguniform(rng, 1e-10, 1e-4)), t1=float(rng.uniform(0.2, 0.5)), t2=float(rng.uniform(1.5, 2.5)))
+    settings = es.get_settings(**kw)
+    Rec = M.recording_objective()
+    p_prev = params(b + 0.37 * direction, None if design is None else design * 1.3)       # construction parameters (never requested)
+    obj = Rec(G.family(fam), np.asarray(x0), p_prev)
+    fj, gj = own_functions(fam)
+    x_cur = np.asarray(x0)
+    res.count("load_sequences")
+    prev_flag = None
+    for k in range(nsteps):
+        # parameter change for this step
+        change = "load"
+        if k > 0:
+            if design is not None and rng.random() < 0.25:
+                design = design * float(rng.uniform(0.7, 1.4))
+                change = "design"
+            else:
+                b = b + direction * step_scale * float(rng.uniform(0.5, 1.5)) * (-1.0 if rng.random() < 0.2 else 1.0)
+        p_k = params(b, design)
+        drv = case["driver"] if case["driver"] != "mixed" else _pick(rng, ("nes_cold", "hand", "nes_warm"))
+        # interleaved evaluations on the shared object between solves
+        if k > 0 and case["interleave"] == "other_point":
+            xo = onp.asarray(x_cur) + rng.standard_normal(n)
+            obj.value(np.asarray(xo))
+            obj.gradient(np.asarray(xo))
+            obj.hessian_vec(np.asarray(xo), np.asarray(rng.standard_normal(n)))
+            res.count("interleaved_other_point")
+        elif k > 0 and case["interleave"] == "other_p_same_point":
+            keep = obj.p
+            obj.p = params(b - 2.0 * step_scale * direction, None if design is None else design * 0.8)
+            obj.value(x_cur)
+            obj.gradient(x_cur)
+            obj.p = keep
+            res.count("interleaved_other_p_same_point")
+        # facts about the hand-over (own f, independent of the object under test)
+        f_new = float(fj(x_cur, p_k))
+        f_old = float(fj(x_cur, p_prev))
+        if k > 0:
+            res.count("sequence_p_changes")
+            res.count("sequence_p_change_" + change)
+            if f_new < f_old:
+                res.count("p_change_with_objective_drop_at_start")
+                if drv in ("nes_cold", "hand") and prev_flag:
+                    res.count("cold_restart_after_converged_solve_with_objective_drop")
+            elif f_new > f_old:
+                res.count("p_change_with_objective_rise_at_start")
+            if drv in ("nes_cold", "hand"):
+                res.count("cold_restart_from_returned_array")
+        res.count("sequence_solves")
+        res.count("sequence_driver_" + drv)
+        if drv == "hand":
+            out = one_solve(res, obj, fam, p_k, x_cur, settings, "trm", "exact", None, False, p_hand=p_k)
+        else:
+            out = one_solve(res, obj, fam, p_k, x_cur, settings, drv, "exact", None, False)
+        if out is None:
+            return res
+        facts, x_ret, flag, start, exit_taken, rec = out
+        if not onp.all(onp.isfinite(onp.asarray(x_ret))):
+            break
+        x_cur = x_ret                     # exactly the returned array
+        p_prev = p_k
+        prev_flag = flag
+    res.nontrivial = True
+    return res
+
+
 def run_case(case):
     import jax.numpy as np
     from optimism import EquationSolver as es
@@ -347,6 +709,10 @@ def run_case(case):
     from vlib.gen import c01_objectives as G
 
     res = Res(case)
+    if case["cls"] == "settings_boundary":
+        return run_boundary_case(case, res)
+    if case["cls"] == "load_sequence":
+        return run_sequence_case(case, res)
     rng = rng_of(case["seed"])
     fam, n, cls = case["family"], int(case["n"]), case["cls"]
     opts = {"start": case["start"]}
@@ -400,79 +766,10 @@ def run_case(case):
     if fam == "barrier":
         x_stale = onp.clip(x_stale, -1.5, 1.5)
 
-    observer = get_observer()
-    c06 = _observer.get("c06")
-    if c06 is not None:
-        c06.LOG.reset()
-    rec = M.CallbackRecorder()
-    starts = []
-
-    def solver_algorithm(objective, x, s, callback=None):
-        starts.append((onp.array(x, dtype=float, copy=True), len(objective.log)))
-        if observer is not None:
-            observer.reset()
-        return es.trust_region_minimize(objective, x, s, callback=callback)
-
-    per_pass = 2 if case["incremental"] else 1
-    rigorous = per_pass * while_iteration_bound(settings) + 2
-    obj.gradient_budget = min(rigorous, per_pass * PRACTICAL_WHILE_CAP)
-    res.count("solves")
-    res.count("entry_" + entry)
-    res.count("precond_" + pk)
-    res.count("ip_preconditioned" if case["ip"] else "ip_euclidean")
-    res.count("family_" + fam)
-    if case["incremental"]:
-        res.count("incremental_mode_solves")
-    try:
-        if entry == "trm":
-            obj.update_precond(np.asarray(x_stale if pk == "stale" else x0))
-            x_ret, flag = solver_algorithm(obj, np.asarray(x0), settings, callback=rec)
-        else:
-            update = (pk != "stale")
-            if not update:
-                obj.update_precond(np.asarray(x_stale))
-            x_ret, flag = es.nonlinear_equation_solve(obj, np.asarray(x0), p_req, settings, solver_algorithm=solver_algorithm,
-                                                      callback=rec, useWarmStart=(entry == "nes_warm"), updatePrecond=update)
-    except M.LogicalBudgetExceeded as e:
-        res.count("logical_budget_exceeded")
-        if obj.gradient_calls > rigorous:
-            res.violate("solver_terminates", {"gradient_calls": obj.gradient_calls, "rigorous_bound": rigorous, "n_reported": len(rec.xs),
-                                              "info": "more acceptance-loop passes than the settings admit: the solver does not return"})
-        else:
-            res.inconclusive("practical iteration cap of the harness hit (%s) below the rigorous bound %d" % (e, rigorous))
+    out = one_solve(res, obj, fam, p_req, x0, settings, entry, pk, x_stale, bool(case["incremental"]))
+    if out is None:
         return res
-    except Exception as e:  # noqa
-        finite = obj.all_evaluations_finite(0)
-        res.count("solver_raised")
-        if fam in G.FINITE_EVERYWHERE and finite and not isinstance(e, MemoryError):
-            res.violate("solver_returns", {"exception": type(e).__name__, "message": str(e)[:300], "n_reported": len(rec.xs)})
-        else:
-            res.vacuous("solver raised %s after a non-finite evaluation: %s" % (type(e).__name__, str(e)[:120]))
-        return res
-    flag = bool(flag)
-    if not starts:
-        res.violate("solver_algorithm_called", {"info": "nonlinear_equation_solve never called solver_algorithm"})
-        return res
-    start, log_start = starts[-1]
-    if not onp.all(onp.isfinite(start)):
-        res.vacuous("warm start produced a non-finite start point")
-        return res
-
-    if c06 is not None:
-        fold_c06(res, c06)
-    exit_taken = None
-    if observer is not None:
-        exit_taken = M.summarize(observer, res, (M.TRM_EXIT_NAMES, M.DOGLEG_NAMES, M.CG_NAMES))
-        acc = [vals for tag, vals in observer.events if tag == "accept_test"]
-        if exit_taken == "exit_iteration_cap" and acc and not acc[-1].get("willAccept"):
-            res.count("cap_exit_after_rejected_last_trial")
-        for tag, vals in observer.events:
-            if tag == "accept_test" and (vals.get("modelObjective") or 0.0) > 0:
-                res.count("model_increase_at_acceptance_test")
-                if (vals.get("realObjective") or 0.0) > 0:
-                    res.count("model_and_objective_increase_at_acceptance_test")
-    facts = check_trace(res, fam, p_req, start, rec, x_ret, flag, tol, obj, log_start, bool(case["incremental"]),
-                        assert_finite=True)
+    facts, x_ret, flag, start, exit_taken, rec = out
     if fam == "barrier" and not facts["all_evals_finite"]:
         res.count("barrier_nonfinite_evaluations_seen")
 
